@@ -323,6 +323,10 @@ def run(m: Model, r: Report, tier: str) -> None:
                     f"evaluated with max_length={ml!r}: longer byte strings are stored truncated", loc=f"{hmod.relpath}:{n.lineno}")
     if n9 < 4:
         raise AnalysisError("bytes_repr call sites in insert_scan_result not found")
+    from sa.util import bytes_repr_truncates
+    why9 = bytes_repr_truncates(m, None)
+    r.check(why9 is None, "R9", "gallia.services.uds.core.utils.bytes_repr#none-is-unlimited",
+            f"with max_length=None (what the handler passes) {why9}", loc="src/gallia/services/uds/core/utils.py")
 
     r.assumptions += ["aiosqlite/SQLite behave as documented; asyncio.Queue is FIFO; json.dumps semantics"]
     r.not_decided += ["database contents for all histories", "row order when an OperationalError makes the writer re-queue a row (noted in DESIGN.md)"]
